@@ -444,6 +444,9 @@ def r06_bson(chk, tier):
             if key in done: continue
             done.add(key)
             chk.analysed(fn)
+            # the element may be written by a private helper the visit_* function hands over to (E11)
+            from .. import inline as I
+            fn = I.expand(facts, fn, allow=lambda callee, call: any(A.is_call(z) and A.callee_name(z) == 'before_value' for z in A.walk_no_lambda(callee['body'])), depth=2)
             g = C.CFG(fn['body'])
             marks = []
             for nd in g.rpo:
